@@ -101,6 +101,35 @@ Definition one_error (cut : nat) (P : program) : bool :=
                         end) rs
   end.
 
+(* ---------- the names kept for the disassembler ---------------------------- *)
+
+(* compiler.go Compile:
+     resolved.IterFuncs(func(name string, info resolver.FuncInfo) {
+         for len(p.nativeFuncNames) <= info.Index { append "" }
+         p.nativeFuncNames[info.Index] = name })
+   IterFuncs ranges over the funcInfo map: EVERY function, the AWK-defined ones
+   included, in map order.  [name_shown P order i] is nativeFuncNames[i] when the
+   map delivered the names in [order] (None: never written, ""). *)
+Definition shown_hit (P : program) (i : Z) (n : name) : bool :=
+  match func_info P n with Some fi => fi_index fi =? i | None => false end.
+Definition name_shown (P : program) (order : list name) (i : Z) : option name :=
+  fold_left (fun acc n => if shown_hit P i n then Some n else acc) order None.
+
+(* the keys of the funcInfo map *)
+Fixpoint dedup (l : list name) : list name :=
+  match l with
+  | [] => []
+  | x :: r => x :: List.filter (fun y => negb (neqb y x)) (dedup r)
+  end.
+Definition func_keys (P : program) : list name := dedup (List.map n_name (p_natives P) ++ fnames P).
+
+(* function f(a) { natv(a) } with the Go function natv: both have index 0 *)
+Definition n_natv : name := [110; 97; 116; 118].
+Definition native_clash : program :=
+  {| p_natives := [ {| n_name := n_natv; n_in := 1; n_variadic := false |} ];
+     p_funcs := [ {| f_name := [102]; f_params := [[97]]; f_body := [Call n_natv [ArgVar [97]]] |} ];
+     p_main := [] |}.
+
 (* ---------- witness programs -------------------------------------------- *)
 
 Definition nm (c : Z) (i : nat) : name := [c; 48 + Z.of_nat (i / 100); 48 + Z.of_nat ((i / 10) mod 10); 48 + Z.of_nat (i mod 10)].
